@@ -1266,7 +1266,8 @@ def run_fuzz_campaign(case):
     for f in found:
         # replayable as a garbage-part case
         rc = {"setup": f["setup"], "items": [{"k": "raw", "hex": f["raw"], "sender": f["sender"]}]}
-        out.violate(f["tag"], "found by atheris campaign %d; replay as part 'garbage' case %s" % (case["campaign"], json.dumps(rc)[:1500]))
+        out.violate(f["tag"], "found by atheris campaign %d (%d bytes): %s" % (case["campaign"], len(f["raw"]) // 2, f.get("detail", "")[:600]))
+        out.replay_as[f["tag"]] = ("garbage", rc)
     return out
 
 
